@@ -186,6 +186,17 @@ def _strategy(draw):
         if not (cond and cond["else"]):
             items.insert(pos, {"k": "include", "path": posixpath.join(posixpath.dirname(src), "gone", "absent.itp"),
                                "cond": cond, "missing": True})
+    if draw(st.integers(0, 5)) == 0:
+        # pragmas after the title of [ system ], before [ molecules ]: an include (plain or conditional) of a
+        # file with one more table, and possibly a define
+        files["late.itp"] = [draw(_block(ATYPES))]
+        paths.append("late.itp")
+        cond = None
+        if draw(st.booleans()):
+            cond = {"kind": draw(st.sampled_from(["ifdef", "ifndef"])), "tag": draw(st.sampled_from(TAGS)), "else": None}
+        files["__system__"] = [{"k": "include", "path": "late.itp", "cond": cond}]
+        if draw(st.booleans()):
+            files["__system__"].insert(draw(st.integers(0, 1)), {"k": "define", "name": "LATE_MACRO", "value": ["0.1", "2"]})
     # white space between the pragma word and its macro: blanks and tabs
     for items in files.values():
         for it in items:
@@ -211,8 +222,9 @@ def strategy(tier):
 
 def f13_shape(spec):
     """a conditional include / error placed after a moleculetype of the same file"""
-    for items in spec["files"].values():
-        seen_mol = False
+    for name, items in spec["files"].items():
+        # the pragmas inside [ system ] come after everything else of main.top
+        seen_mol = name == "__system__" and any(it["k"] == "mol" for it in spec["files"]["main.top"])
         for it in items:
             if it["k"] == "mol":
                 seen_mol = True
@@ -273,6 +285,11 @@ def flatten(spec):
                 walk(target, depth + 1)
 
     walk("main.top", 0)
+    if "__system__" in spec["files"] and not error:
+        mark = len(out)
+        walk("__system__", 0)
+        info["system_lines"] = out[mark:]
+        del out[mark:]
     return out, (error[0] if error else None), info
 
 
@@ -372,13 +389,19 @@ def check(spec, ctx):
     flat, err, info = flatten(spec)
     if not spec.get("molecules") and err != "MISSING-FILE":
         raise Reject("no active molecule type")
-    tail = ["[ system ]", "generated system", "[ molecules ]"] + [f"{n} {c}" for n, c in spec["molecules"]]
+    mol_lines = ["[ molecules ]"] + [f"{n} {c}" for n, c in spec["molecules"]]
     rnd = random.Random(spec["trivia_seed"])
+    tail = ["[ system ]", "generated system"] + mol_lines
+    tree_tail = tail
+    if "__system__" in spec["files"]:
+        tree_tail = ["[ system ]", "generated system"] + render_file(spec, "__system__", rnd, []).rstrip("\n").split("\n") + mol_lines
+        tail = ["[ system ]", "generated system"] + info.get("system_lines", []) + mol_lines
+        ctx.label("pragmas_inside_system_section")
     root = ctx.dir / "tree"
     for path in spec["paths"]:
         full = root / path
         full.parent.mkdir(parents=True, exist_ok=True)
-        full.write_text(render_file(spec, path, rnd, tail))
+        full.write_text(render_file(spec, path, rnd, tree_tail))
     flat_dir = ctx.dir / "flat"
     flat_dir.mkdir()
     (flat_dir / "flat.top").write_text("\n".join(flat + tail) + "\n")
